@@ -29,3 +29,13 @@ func VerifPoly(gf *GaloisField, coeff []int) *GFPoly {
 func VerifBitListClone(bl *BitList) *BitList {
 	return &BitList{count: bl.count, data: append([]int32(nil), bl.data...)}
 }
+
+// VerifRSSetCache replaces the cached generator polynomials of rs by copies of polys
+// (a state previously read with VerifRSCache); used to return to a BFS node.
+func VerifRSSetCache(rs *ReedSolomonEncoder, polys [][]int) {
+	ps := make([]*GFPoly, len(polys))
+	for i, p := range polys {
+		ps[i] = &GFPoly{rs.gf, append([]int(nil), p...)}
+	}
+	rs.polynomes = ps
+}
